@@ -84,6 +84,12 @@ theorem mapM_isSome_of_forall {α β} (f : α → Option β) : ∀ (l : List α)
       | none => rw [hm] at hl; cases hl
       | some bs => rfl
 
+theorem mapM_congr' {α β} (f g : α → Option β) : ∀ (l : List α), (∀ x ∈ l, f x = g x) → l.mapM f = l.mapM g
+  | [], _ => rfl
+  | a :: l, h => by
+    simp only [List.mapM_cons]
+    rw [h a (by simp), mapM_congr' f g l (fun x hx => h x (by simp [hx]))]
+
 /-! ### reindex -/
 
 theorem inv_get {plan : List Nat} (hperm : plan.Perm (List.range plan.length)) (i : Nat) (hi : i < plan.length) :
